@@ -175,13 +175,17 @@ theorem compare_nodes_str_ne (d : Doc) (ns : List Ref) (s : String) :
   simp only [Spec.compare, Spec.cmpAtom, Spec.CmpOp.isRel, Spec.toStr]
   simp [bne]
 
+/-- (the engine now tests `node value = literal`, operands in order; `==` on strings is symmetric,
+so the statement — written with the literal first, as the engine used to call it — still holds) -/
 theorem cmpM_nodes_str_eq (d : Doc) (l : List Ref) (s : String) :
     cmpM (F := F) d .eq (.nodes l) (.str s) = .ok (l.any (fun x => s == stringValue d x)) := by
-  simp [cmpM, xtypeOf, bind, Except.bind, pure, Except.pure, cmpStrF]
+  simp only [cmpM, xtypeOf, bind, Except.bind, pure, Except.pure, cmpStrF]
+  congr 2; funext x; exact beq_str_comm _ _
 
 theorem cmpM_nodes_str_ne (d : Doc) (l : List Ref) (s : String) :
     cmpM (F := F) d .ne (.nodes l) (.str s) = .ok (l.any (fun x => s != stringValue d x)) := by
-  simp [cmpM, xtypeOf, bind, Except.bind, pure, Except.pure, cmpStrF]
+  simp only [cmpM, xtypeOf, bind, Except.bind, pure, Except.pure, cmpStrF]
+  congr 2; funext x; exact bne_str_comm _ _
 
 theorem evalP_constStr (d : Doc) (cfg : ECfg) (s : String) (c : Ref) :
     evalP (F := F) d cfg (.constStr s) c = .ok (.str s) := by simp only [evalP]
